@@ -103,6 +103,15 @@ def bools_aligned_value_dim(items, ndim, sel_shape, vshape):
 
 
 def check(case):
+    try:
+        return _check(case)
+    except Violation as v:
+        # `raises` separates crashes from wrong answers in known-finding matches that cannot name a single exception type
+        v.sig["raises"] = str(v.sig.get("symptom", "")).startswith("raises:")
+        raise
+
+
+def _check(case):
     import dask.array as da
 
     arr = case["array"]
